@@ -9,7 +9,7 @@ Streams of C12.
               status mime internal templates
       path  = html | bin | html-head | bin-head  (…-head: the request method is HEAD)
       ae    = 1 | 0 (Accept-Encoding: gzip sent)
-      inner = ret:<s>:<0|1> | write:<s|->:<hex>:<0|1>:<kind>:<cl 0|1>:<mode> | file:<kind>:<hex>
+      inner = ret:<s>:<0|1>[:<n>] | panic[:<n>]  (n informational 1xx headers first) | write:<s|->:<hex>:<0|1>:<kind>:<cl 0|1>:<mode> | file:<kind>:<hex>
               | panic | panicafter:<s|->:<hex>
               kind = plain | tok | tparse | texec  (what text/template makes of the body)
               mode = w | c | s | wf | fw | nw | i<mode> (a 103 Early Hints first)  (Write, io.Copy, io.WriteString, Write+Flush, Flush+Write, optional-interface
@@ -51,30 +51,36 @@ def parseKind : String → Option BodyKind
   | "texec" => some .tplExec
   | _ => none
 
-def parseInner (s : String) : Option Inner :=
+/-- number of informational headers the probe sends first: the leading i's of the mode -/
+def modeInfos (mode : String) : Nat := (mode.toList.takeWhile (· == 'i')).length
+
+def parseInner (s : String) : Option (Nat × Inner) :=
   match s.splitOn ":" with
-  | ["ret", st, e] => do pure (.ret (← st.toNat?) (e == "1"))
-  | ["write", st, b, e, k, cl, _mode] => do
-    pure (.write (← parseOptNat st) (← Driver.unhex b) (e == "1") (← parseKind k) (cl == "1"))
-  | ["file", k, b] => do pure (.write (some 200) (← Driver.unhex b) false (← parseKind k) true)
-  | ["panic"] => some .panicBefore
-  | ["panicafter", st, b] => do pure (.panicAfter (← parseOptNat st) (← Driver.unhex b))
+  | ["ret", st, e] => do pure (0, .ret (← st.toNat?) (e == "1"))
+  | ["ret", st, e, n] => do pure (← n.toNat?, .ret (← st.toNat?) (e == "1"))
+  | ["write", st, b, e, k, cl, mode] => do
+    pure (modeInfos mode, .write (← parseOptNat st) (← Driver.unhex b) (e == "1") (← parseKind k) (cl == "1"))
+  | ["file", k, b] => do pure (0, .write (some 200) (← Driver.unhex b) false (← parseKind k) true)
+  | ["panic"] => some (0, .panicBefore)
+  | ["panic", n] => do pure (← n.toNat?, .panicBefore)
+  | ["panicafter", st, b] => do pure (0, .panicAfter (← parseOptNat st) (← Driver.unhex b))
   | _ => none
 
 structure Case where
   cfg : Cfg
   req : Req
+  infos : Nat        -- informational headers the innermost handler sends first
   inner : Inner      -- what the innermost handler does for this request
 
 def parseCase : List String → Option Case
   | [st, p, ae, i] => do
     let head := p.endsWith "-head"
-    let gi ← parseInner i
+    let (n, gi) ← parseInner i
     -- the static file server answers a HEAD request with the header only (http.ServeContent):
     -- Content-Length set, nothing written
     let mi := if head && i.startsWith "file:" then Inner.write (some 200) [] false .plain true else gi
     pure { cfg := ← parseStack st, req := { html := p.startsWith "html", ae := ae == "1", head := head },
-           inner := mi }
+           infos := n, inner := mi }
   | _ => none
 
 def showChunk : Chunk → String
@@ -128,7 +134,7 @@ def parseBody (s : String) : Option (List (Chunk × Bool)) :=
 def serveModel (f : List String) : String :=
   match parseCase f with
   | none => "bad-case"
-  | some c => showResp c.req.head (serveWire c.cfg c.req c.inner) ++ " ok"
+  | some c => showResp c.req.head (serveWire c.cfg c.req c.infos c.inner) ++ " ok"
 
 def serveJudge (f : List String) (out : String) : String :=
   if out.startsWith "PANIC:" then "bad:not-contained:a panic escaped Server.ServeHTTP"
@@ -155,7 +161,7 @@ def liveModel (f : List String) : String :=
   match parseCase f with
   | none => "bad-case"
   | some c =>
-    let r := serveWire c.cfg c.req c.inner
+    let r := serveWire c.cfg c.req c.infos c.inner
     let clok := clOK r || bodiless c.req.head r.status
     s!"{if r.status = 0 then 200 else r.status} {if clok then "ok" else "!"} {showBody r.body} ok ok"
 
@@ -179,7 +185,36 @@ def liveJudge (f : List String) (out : String) : String :=
     | _, _ => "bad:unparsable:" ++ out
   | _, _ => "bad:unparsable:" ++ out
 
+/-- c12.chain: the same cases on a chain assembled through the httpserver API from the
+directives' own setup functions — no Casketfile, so no `errors` is added next to `gzip` -/
+def noInject (f : List String) : Option Case := (parseCase f).map fun c => { c with cfg := { c.cfg with inject := false } }
+
+def chainModel (f : List String) : String :=
+  match noInject f with
+  | none => "bad-case"
+  | some c => showResp c.req.head (serveWire c.cfg c.req c.infos c.inner) ++ " ok"
+
+def chainJudge (f : List String) (out : String) : String :=
+  if out.startsWith "PANIC:" then "bad:not-contained:a panic escaped Server.ServeHTTP"
+  else if (out.splitOn "other:").length > 1 then "bad:body:the body contains bytes that are neither the handler's nor a known error page"
+  else if (out.splitOn "X:").length > 1 then "bad:body:the body is not decodable under its Content-Encoding"
+  else
+  match noInject f, out.splitOn " " with
+  | some c, [cm, st, cl, body, fu] =>
+    match cm.toNat?, st.toNat?, parseBody body with
+    | some cm, some st, some body =>
+      match mkResp cm st cl body with
+      | none => "bad:unparsable:" ++ out
+      | some r =>
+        let v := verdict c.req.head (c.cfg.templates && c.req.html) (effectiveErrors c.cfg) c.inner r
+        if v != "ok" then v
+        else if fu != "ok" then "bad:not-contained:the follow-up requests were not answered as a fresh instance of the site answers them"
+        else "ok"
+    | _, _, _ => "bad:unparsable:" ++ out
+  | _, _ => "bad:unparsable:" ++ out
+
 def streams : List Driver.Stream := [
+  { name := "c12.chain", model := chainModel, judge := chainJudge },
   { name := "c12.serve", model := serveModel, judge := serveJudge },
   { name := "c12.live", model := liveModel, judge := liveJudge }
 ]
